@@ -131,7 +131,10 @@ else:
             kind = c.split()[0]; stats[kind] += 1
             if "INVALID-HISTORY" in b or "MODEL-DIFFERS-FROM-SPEC" in b:
                 ck.violation("generator/model self-check failed: " + b[-60:], {"case": c, "model": b}, no_input=True); break
-            if c not in distinct and len(c.split()) > 6: distinct.add(c)
+            toks = c.split()
+            npush = sum(1 for t in toks if t.startswith(("PB,", "PF,")))
+            if (npush > 10 or any(t.startswith(("CA,", "MA,", "CC,", "MC,", "MT,", "R,", "SW,")) for t in toks)) and len(toks) > 6:
+                distinct.add(c)
             if a != b:
                 found = True
                 # property verdict on the implementation alone: ledger must be ok and answers must match the deque spec (= model, proven)
@@ -146,7 +149,7 @@ if pr is not None and not pr["ok"]:
 ck.finish({
     "evaluations": len(cases),
     "distinct_nontrivial": len(distinct),
-    "rule": "operation histories over 3 buffer variables generated from a spec-tracking generator (capacities 0..9, four bias modes that wrap either cursor, copies/moves/(de)allocation); non-trivial = more than 5 operations; distinct = distinct case text. Each case is run on the real classes (Tracked ledger elements, counting allocator, ASan+UBSan) and on the extracted Coq model; every query answer and the final ledger verdict are compared.",
+    "rule": "operation histories over 3 buffer variables generated from a spec-tracking generator (capacities 0..9, four bias modes that wrap either cursor, copies/moves/(de)allocation); non-trivial = more than 5 operations and either more than 10 pushes (forces a cursor to wrap for capacities <= 9) or a copy/move/assign/move_to (ring) resp. resize/swap/move (vector) operation; distinct = distinct case text. Each case is run on the real classes (Tracked ledger elements, counting allocator, ASan+UBSan) and on the extracted Coq model; every query answer and the final ledger verdict are compared.",
     "samples": samples,
     "input_distribution": stats,
 }, assumptions=[
